@@ -168,12 +168,19 @@ def run_hist(acc, c):
                             if st == "run" and p.nodes[i].setup and view.enters.get(ids[i]):
                                 e["inst"].pre[i] = res.trace[view.enters[ids[i]][0]][2]
         elif k == 8:
-            if c["dag"] == "linear":
-                comp = inst.d.compose("comp", [ids[0]], [ids[-1]])  # a node as input: its keyword / positional uses are rewired
-                cargs = ("c1",)
-            else:
-                comp = inst.d.compose("comp", ..., [ids[-1]])
-                cargs = ("c1", "c2")
+            try:
+                if c["dag"] == "linear":
+                    comp = inst.d.compose("comp", [ids[0]], [ids[-1]])  # a node as input: its keyword / positional uses are rewired
+                    cargs = ("c1",)
+                else:
+                    comp = inst.d.compose("comp", ..., [ids[-1]])
+                    cargs = ("c1", "c2")
+            except Exception as e_:  # noqa: BLE001
+                acc.evaluations += 1
+                acc.violation(V("compose_call", f"history {names}: compose() on the instance raised {e_!r} (state left behind by the earlier operations?)"),
+                              dict(c, history=names), (), None, p.source())
+                results_ok(acc, c, names, inst, base_keys)
+                continue
             res = H.run_controlled(_wrap(p, lambda: comp(*cargs)), is_async=p.is_async)
             acc.evaluations += 1
             ok = res.outcome == "return" and isinstance(res.value, tuple) and len(res.value) == 1 and getattr(res.value[0], "label", None) == ids[-1]
